@@ -11,6 +11,9 @@ Local Open Scope list_scope.
 Lemma then_cmp_eq c d : then_cmp c d = Eq -> c = Eq /\ d = Eq.
 Proof. destruct c; simpl; intro H; try discriminate. split; [reflexivity | exact H]. Qed.
 
+Lemma then_cmp_Eq_r c : then_cmp c Eq = c.
+Proof. destruct c; reflexivity. Qed.
+
 Lemma then_cmp_opp c d : CompOpp (then_cmp c d) = then_cmp (CompOpp c) (CompOpp d).
 Proof. destruct c; reflexivity. Qed.
 
@@ -374,7 +377,8 @@ Section PyOk.
           -- intro E. injection E as -> ->. rewrite N.compare_refl. simpl. apply key_cmp_refl.
       + unfold N.ltb. rewrite (N.compare_antisym (curve_idx c) (curve_idx c0)).
         destruct (curve_idx c ?= curve_idx c0)%N eqn:E; simpl; try reflexivity.
-        unfold py_key_lt, key_cmp. destruct c; try reflexivity. apply tuple2_ltb_spec.
+        unfold py_key_lt. rewrite tuple2_ltb_spec. unfold key_cmp.
+        destruct c; simpl; rewrite ?then_cmp_Eq_r; reflexivity.
     - (* signature *) split; [apply bytes_eqb_lex | reflexivity].
     - (* chain_id *)
       unfold lex_ltb. rewrite bytes_eqb_lex, (cid_order T TOK) by assumption. split; reflexivity.
